@@ -97,6 +97,8 @@ REQUIRE = {
     "eno3_cells_faces_upwind_differently_converging": 50,
     "eno3_cells_same_upwind_cubic": 1000,
     "filter_lap1d_kernels_called": 24,
+    "zero_multiplier_obligations": 100,
+    "calls_with_temporary_view_arguments": 600,
 }
 K_NOISE = 32.0
 F64 = np.float64
@@ -322,7 +324,66 @@ class _Raised(Exception):
     pass
 
 
+def zero_multiplier(ctx, key, mech, opts, slots, run):
+    """multiplier exactly 0 (inviscid run, switched-off coupling): c * operator = 0 exactly, into sentinel-filled outputs"""
+    M = mons(ctx.d)
+    pl = _zero_polys(slots)
+    for s_, n in slots:
+        for c in range(n):
+            pl[s_][c] = {e: float(ctx.rng.integers(-4, 5)) for e in M}
+    exact = ctx.leg == "exact"
+    try:
+        got, ref, bound, ghost = run(pl, 0.0, exact)
+    except _Raised as ex:
+        ctx.rec.violation(f"{key}-raises", f"{ex} opts={opts} multiplier 0 {ctx.meta}", {"meta": ctx.meta})
+        return
+    ctx.compare(key, mech, opts, "multiplier=0", got, ref, ghost, bound, exact, "(multiplier exactly zero)")
+    ctx.rec.count("zero_multiplier_obligations")
+
+
+def history(ctx, key, mech, opts, slots, run, K=6):
+    """K calls in a tight loop on ONE kernel object where every array argument is a TEMPORARY view (stack[k]) of different
+    memory: the view objects die after each call and CPython hands their id() to the next ones, so anything the wrapper
+    remembers per id(argument) is stale.  Results are compared afterwards."""
+    global _DEFER
+    M = mons(ctx.d)
+    items = []
+    _DEFER = []
+    try:
+        for j in range(K):
+            pl = _zero_polys(slots)
+            for s_, n in slots:
+                for c in range(n):
+                    pl[s_][c] = {e: float(ctx.rng.integers(-9, 10)) / float(ctx.rng.integers(1, 8)) for e in M}
+            items.append(run(pl, float(ctx.rng.uniform(0.3, 3) * ctx.rng.choice([-1, 1])), False))
+        calls = _DEFER
+    finally:
+        _DEFER = None
+    if len(calls) != K:
+        return
+    kern = calls[0][0]
+    names = [n for n, v in calls[0][1].items() if isinstance(v, np.ndarray)]
+    store = {n: np.stack([np.asarray(c[1][n]) for c in calls]) for n in names}
+    scal = [{n: v for n, v in c[1].items() if not isinstance(v, np.ndarray)} for c in calls]
+    try:
+        for k in range(K):
+            kern(**{n: store[n][k] for n in names}, **scal[k])
+    except Exception as ex:
+        ctx.rec.violation(f"{key}-raises", f"{type(ex).__name__}: {ex} opts={opts} history of temporary views {ctx.meta}", {"meta": ctx.meta})
+        return
+    for k, (got, ref, bound, ghost) in enumerate(items):
+        name = next(n for n in names if calls[k][1][n] is got)
+        ctx.compare(key, mech, opts, "temporary-view-history", store[name][k], ref, ghost, bound, False, f"(call {k + 1} of {K} with temporary views of different memory)")
+        ctx.rec.count("calls_with_temporary_view_arguments")
+
+
+_DEFER = None  # history leg: list collecting (kernel, kwargs) instead of calling
+
+
 def _call(k, **kw):
+    if _DEFER is not None:
+        _DEFER.append((k, kw))
+        return
     try:
         k(**kw)
     except Exception as e:  # SophT raising on an admissible input
@@ -697,8 +758,11 @@ def run_shard(sh, rec):
                 continue
             slots, run = builder(ctx, k)
             sweep(ctx, key, mech, opts, slots, run, nrc)
+            zero_multiplier(ctx, key, mech, opts, slots, run)
+            history(ctx, key, mech, opts, slots, run)
         for opts, info, c in filt:
             slots, run = op_filter_lap(ctx, info, c)
             sweep(ctx, "filter_lap1d", "filter_lap1d!=-(dx^2/4)d2", opts, slots, run, nrc)
+            history(ctx, "filter_lap1d", "filter_lap1d!=-(dx^2/4)d2", opts, slots, run, K=4)
         if eno is not None and eno[2] is not None:
             eno_sweep(ctx, eno[0], eno[1], eno[2])
